@@ -366,12 +366,16 @@ def plainBody (cfg : Cfg) (s : St) : St × Option Str × Nat :=
   let (_, s1, p) := runStage (.plain 0) false cfg.plainScript {} s
   (s1, p, 0)
 
-/-- container.go:393 `HandleWithFilter`: the container filters around the plain handler -/
+/-- container.go:393 `HandleWithFilter`: the container filters around the plain handler, with the
+    same deferred recover as `dispatch` (only when there are container filters: without any the
+    handler is called directly) -/
 def plainFilteredBody (cfg : Cfg) (s : St) : St × Option Str × Nat :=
   if cfg.cfilters.isEmpty then plainBody cfg s
   else
     let (_, s1, p) := runChain (label .cfilter cfg.cfilters) ⟨.plain 0, cfg.plainScript⟩ {} s
-    (s1, p, 0)
+    match p with
+    | none => (s1, none, 0)
+    | some v => if cfg.recover then (runRecover cfg s1, none, 1) else (s1, some v, 0)
 
 /-- container.go:320 `ServeHTTP` around whatever the mux selects -/
 def serveWrapper (cfg : Cfg) (sr : SReq) (s0 : St) (inner : St → St × Option Str × Nat) : St × Option Str × Nat :=
